@@ -117,8 +117,11 @@ ParseAbs(s) == LET d == ParseDR(s)
 
 (* ---------------------------------------------------------------------- *)
 (* 2. Context and classification                                            *)
-(* ctx = [known : set of <<stage, name>>, keys : set of manifest keys (relative paths),               *)
-(*        deps : set of application dependencies ("name", "name.ext", "/abs/name.ext")]               *)
+(* ctx = [mode : which components exist ("all": every name in every stage, "none", "stage0": only in *)
+(*        stage 0, "not0": in every stage but 0 -- always except the names that are folders),           *)
+(*        keys : set of manifest keys (relative paths),                                                 *)
+(*        deps : set of application dependencies ("name", "name.ext", "/abs/name.ext"),                 *)
+(*        folders : FoldersOf(keys, deps)]                                                               *)
 
 (* Manifest.top_level_folders: "manifest can include keys which describe nested folders. Extract the  *)
 (* left-most folders out of such keys"                                                                *)
@@ -131,6 +134,11 @@ DepNames(deps) == {DepName(d) : d \in deps}
 
 FoldersOf(keys, deps) == ReservedSeqs \cup TopLevel(keys) \cup DepNames(deps)
 Folders(ctx) == ctx.folders       \* = FoldersOf(ctx.keys, ctx.deps), computed once per context (see CtxOK)
+(* the known components of a context: <<st, nm>> exists *)
+KnownIn(ctx, st, nm) == /\ nm \in Names /\ nm \notin ctx.folders /\ st \in Stages
+                        /\ CASE ctx.mode = "all" -> TRUE [] ctx.mode = "none" -> FALSE
+                              [] ctx.mode = "stage0" -> st = 0 [] OTHER -> st # 0
+KnownSet(ctx) == {k \in Stages \X Names : KnownIn(ctx, k[1], k[2])}
 
 Body(s) == Before(s, FirstPos(s, ":"))
 (* The statement of C09, literally: "A reference whose first path segment is a reserved folder, an    *)
@@ -144,7 +152,7 @@ DirectByStatement(s, ctx) ==
 (* "... and every other reference whose producer is a known component is."  The producer of a         *)
 (* relative spelling is looked up in the stage of the consumer (n).                                    *)
 Producer(s, n) == LET p == ParseAbs(s) IN <<IF p.stage = NoStage THEN n ELSE p.stage, p.prod>>
-ComponentByStatement(s, n, ctx) == ~DirectByStatement(s, ctx) /\ Producer(s, n) \in ctx.known
+ComponentByStatement(s, n, ctx) == ~DirectByStatement(s, ctx) /\ KnownIn(ctx, Producer(s, n)[1], Producer(s, n)[2])
 Class(s, n, ctx) == IF DirectByStatement(s, ctx) THEN "direct"
                     ELSE IF ComponentByStatement(s, n, ctx) THEN "component" ELSE "unspecified"
 
@@ -155,7 +163,7 @@ Expand(s, n, ctx) ==
       maybe == IF p.stage = NoStage THEN n ELSE p.stage
       direct == (p.stage = NoStage /\ p.prod \in Folders(ctx)) \/ Has(p.prod, "/")
   IN IF IsVar(p.prod) THEN s
-     ELSE IF direct /\ <<maybe, p.prod>> \notin ctx.known THEN s
+     ELSE IF direct /\ ~KnownIn(ctx, maybe, p.prod) THEN s
      ELSE PrintRef([stage |-> maybe, prod |-> p.prod, file |-> p.file, method |-> p.method])
 
 (* ---------------------------------------------------------------------- *)
@@ -187,7 +195,8 @@ Refs == {r \in [stage : {NoStage} \cup Stages, prod : Prods, file : Files, metho
 (* a context is well formed when no known component is called like a folder of the package            *)
 (* ("we consider that components cannot have the same name as a special folder")                      *)
 CtxOK(ctx) == /\ ctx.folders = FoldersOf(ctx.keys, ctx.deps)
-              /\ \A k \in ctx.known : k[2] \notin Folders(ctx) /\ k[2] \in Names /\ k[1] \in Stages
+              /\ ctx.mode \in {"all", "none", "stage0", "not0"}
+              /\ \A k \in KnownSet(ctx) : k[2] \notin Folders(ctx)
 ASSUME \A nm \in Names : WFName(nm)
 ASSUME \A i \in 1..Len(Contexts) : CtxOK(Contexts[i])
 
@@ -266,12 +275,38 @@ ClassifiedAsStated ==
 DirectStaysPut == phase = "expanded" =>
      /\ (DirectByStatement(text, Ctx) => abs = text)
      /\ (ComponentByStatement(text, n, Ctx) => abs = PrintRef(AbsOf(r, n)))
-ClassExclusive == phase = "written" => ~(DirectByStatement(text, Ctx) /\ Producer(text, n) \in Ctx.known)
+ClassExclusive == phase = "written" => ~(DirectByStatement(text, Ctx) /\ KnownIn(Ctx, Producer(text, n)[1], Producer(text, n)[2]))
+
+(* ---------------------------------------------------------------------- *)
+(* Named deviations (what the implementation does today), kept so that TLC can show on which inputs they     *)
+(* break the properties: both invariants below are EXPECTED TO FAIL.                                          *)
+(* D1: ParseProducerReference tests the text before the first "." with re.match: only a PREFIX of it has to   *)
+(*     be stage<N> ("stage1x" counts as stage 1).                                                              *)
+StagePrefixNum == StageNum @@ ("stage1x" :> 1)
+ParsePRByPrefix(p, idx) ==
+  IF p[1] = "/" \/ ~Has(p, ".")
+    THEN [stage |-> idx, name |-> p, has |-> FALSE]
+  ELSE LET j == FirstPos(p, ".")
+           head == Before(p, j)
+       IN IF head[1] \in DOMAIN StagePrefixNum       \* the match is anchored at the start only
+            THEN [stage |-> StagePrefixNum[head[1]], name |-> After(p, j), has |-> TRUE]
+            ELSE [stage |-> idx, name |-> p, has |-> FALSE]
+PrefixRuleRoundTrips ==
+  phase = "written" => LET d == ParseDR(text)
+                           q == ParsePRByPrefix(d.pref, NoStage)
+                       IN PrintRef([stage |-> q.stage, prod |-> q.name, file |-> d.file, method |-> d.method]) = text
+(* D2: Manifest.top_level_folders splits the key on os.path.pathsep (":"), which no key contains: a nested    *)
+(*     key is reported whole.                                                                                  *)
+TopLevelByPathsep(keys) == keys
+PathsepRuleClassifies ==
+  phase = "written" =>
+     (DirectByStatement(text, Ctx) =>
+        ParseFull(text, n, ReservedSeqs \cup TopLevelByPathsep(Ctx.keys) \cup DepNames(Ctx.deps)).stage = NoStage)
 
 (* ---------------------------------------------------------------------- *)
 (* emission for the conformance driver: everything the implementation has to reproduce for the case   *)
 CtxJson(i) == LET x == Contexts[i] IN
-   [t |-> "ctx", id |-> i, known |-> x.known, keys |-> x.keys, deps |-> x.deps,
+   [t |-> "ctx", id |-> i, known |-> KnownSet(x), keys |-> x.keys, deps |-> x.deps,
     toplevel |-> TopLevel(x.keys), depnames |-> {<<d, DepName(d)>> : d \in x.deps},
     folders |-> Folders(x)]
 CaseJson ==
@@ -314,13 +349,7 @@ FilesTwo == { <<>>, <<"d", "/", "f", ".", "txt">> }
 KeySets == << {}, {<<"a">>}, {<<"a", "/", "d">>}, {<<"a", "/", "d">>, <<"c">>, <<"data", "/", "x">>} >>
 DepSets == << {}, {<<"name", ".", "ext">>}, {<<"/", "abs", "/", "name", ".", "ext">>, <<"pkg">>, <<"n", ".", "m", ".", "ext">>} >>
 MkCtx(kn, keys, deps) ==
-   LET fs == FoldersOf(keys, deps)
-       all == {<<st, nm>> : st \in Stages, nm \in NamesFull \ fs}
-   IN [known |-> CASE kn = "all" -> all
-                   [] kn = "none" -> {}
-                   [] kn = "stage0" -> {k \in all : k[1] = 0}
-                   [] OTHER -> {k \in all : k[1] # 0},
-       keys |-> keys, deps |-> deps, folders |-> fs]
+   [mode |-> kn, keys |-> keys, deps |-> deps, folders |-> FoldersOf(keys, deps)]
 ContextsFull == [i \in 1..36 |-> MkCtx(<<"all", "none", "stage0">>[((i - 1) % 3) + 1],
                                        KeySets[(((i - 1) \div 3) % 4) + 1], DepSets[((i - 1) \div 12) + 1])]
 ContextsQuick == << MkCtx("all", KeySets[1], DepSets[1]), MkCtx("stage0", KeySets[2], DepSets[2]),
